@@ -251,7 +251,7 @@ theorem init_never_writes_files (fs fs' : FS) (ro rw : Option Path) (c : Cache)
     (h : Cache.init fs ro rw = .ok (fs', c)) (p : Path) : fs'.read p = fs.read p :=
   (init_read fs ro rw fs' c h p).1
 
-/-! ## Known finding D17: the cache key is the checksum alone -/
+/-! ## Known finding D24: the cache key is the checksum alone -/
 
 def cxDir : Path := ofString "/rw"
 def cxLogToc : Toc := [([103], [([110], .log ⟨0, [103], [110], [99], [112], 0⟩)])]
